@@ -81,6 +81,23 @@ func (eng *Engine) registerIntrinsics() {
 		}
 		return strFromTerms(ts)
 	})
+	vp("IntIn", func(e *Exec, fr *frame, fn *ssa.Function, args []Value) Value {
+		lo, hi := args[0].(*Term), args[1].(*Term)
+		v := e.freshVar("i64", 64)
+		c := e.ctx
+		in := c.And(c.Cmp(OpSLe, lo, v), c.Cmp(OpSLe, v, hi))
+		if in.IsConst() {
+			if !in.BoolVal() {
+				e.abort("assume", "IntIn value outside range")
+			}
+			return v
+		}
+		if e.checkWith(in) == Unsat {
+			e.abort("assume", "IntIn range empty")
+		}
+		e.assertPC(in)
+		return v
+	})
 	vp("IntRange", func(e *Exec, fr *frame, fn *ssa.Function, args []Value) Value {
 		lo := e.concreteInt(fr, args[0], "vp.IntRange lo")
 		hi := e.concreteInt(fr, args[1], "vp.IntRange hi")
@@ -354,6 +371,8 @@ func (eng *Engine) registerIntrinsics() {
 	}
 
 	registerFmt(in)
+	registerTime(in)
+	registerStrconv(in)
 	registerLog(in)
 }
 
